@@ -86,8 +86,13 @@ partial def genE (r : R) (d : Nat) : R × Expr :=
     let (r, k) := r.below 4
     let (r, as) := genEs r (d - 1)
     if k = 0 then
+      -- an immediately called function literal: anonymous or named, with parameters
       let (r, b) := genB r (d - 1)
-      (r, .call (.func [] [] b) as)
+      let (r, nm) := r.below 2
+      let (r, n) := pickName r
+      let (r, np) := r.below 3
+      let (r, ps) := (List.range np).foldl (fun (acc : R × List Text) _ => let (r, p) := pickName acc.1; (r, p :: acc.2)) (r, [])
+      (r, .call (.func (if nm = 0 then [] else n) ps b) as)
     else let (r, n) := pickName r; (r, .call (.ident n) as)
   | 16 => let (r, vs) := genEs r (d - 1); (r, .arr vs)
   | _ =>
